@@ -63,6 +63,9 @@ RPowNat(x, k) == IF k = 0 THEN One ELSE RMul(x, RPowNat(x, k - 1))
 RPowInt(x, k) == IF k >= 0 THEN RPowNat(x, k) ELSE RPowNat(RInv(x), -k)
 
 \* ---- strata and contingency tables --------------------------------------------------
+\* TLC evaluates [x \in S |-> e] lazily and re-evaluates e at every application; comparing the value with itself
+\* converts it to an explicit table once (semantically the identity)
+Force(f) == IF f = f THEN f ELSE f
 Idx(D) == 1..Len(D.rows)
 Key(D, Z, i) == [z \in ToSet(Z) |-> D.rows[i][z]]
 Groups(D, Z) == {{j \in Idx(D) : Key(D, Z, j) = Key(D, Z, i)} : i \in Idx(D)}
@@ -72,9 +75,9 @@ Tab(D, X, Y, I) ==
     LET xs == {D.rows[i][X] : i \in I}
         ys == {D.rows[i][Y] : i \in I}
     IN [n |-> Cardinality(I), xs |-> xs, ys |-> ys,
-        O |-> [p \in xs \X ys |-> Cardinality({i \in I : D.rows[i][X] = p[1] /\ D.rows[i][Y] = p[2]})],
-        r |-> [a \in xs |-> Cardinality({i \in I : D.rows[i][X] = a})],
-        c |-> [b \in ys |-> Cardinality({i \in I : D.rows[i][Y] = b})]]
+        O |-> Force([p \in xs \X ys |-> Cardinality({i \in I : D.rows[i][X] = p[1] /\ D.rows[i][Y] = p[2]})]),
+        r |-> Force([a \in xs |-> Cardinality({i \in I : D.rows[i][X] = a})]),
+        c |-> Force([b \in ys |-> Cardinality({i \in I : D.rows[i][Y] = b})])]
 Cells(T) == T.xs \X T.ys
 Dof(T) == (Cardinality(T.xs) - 1) * (Cardinality(T.ys) - 1)
 Exp(T, p) == R(T.r[p[1]] * T.c[p[2]], T.n)                 \* > 0: only present values index the table
@@ -86,13 +89,17 @@ Adj(T, p) == LET e == Exp(T, p)
                 ELSE IF RLe(RAbs(d), Half) THEN e
                 ELSE IF RLt(Zero, d) THEN RAdd(o, Half) ELSE RSub(o, Half)
 
-TotalDof(D, X, Y, Z) == ISumSet(Groups(D, Z), LAMBDA I : Dof(Tab(D, X, Y, I)))
-ExactlyIndependent(D, X, Y, Z) ==
-    \A I \in Groups(D, Z) : LET T == Tab(D, X, Y, I) IN \A p \in Cells(T) : T.O[p] * T.n = T.r[p[1]] * T.c[p[2]]
-HasZeroCell(D, X, Y, Z) ==                                  \* an empty cell that enters the statistic
-    \E I \in Groups(D, Z) : LET T == Tab(D, X, Y, I) IN \E p \in Cells(T) : Adj(T, p) = Zero
-HasYates(D, X, Y, Z) == \E I \in Groups(D, Z) : Dof(Tab(D, X, Y, I)) = 1
-AllDegenerate(D, X, Y, Z) == TotalDof(D, X, Y, Z) = 0
+\* all strata of the test of X and Y given Z:  representative row index -> table
+MinOf(I) == CHOOSE i \in I : \A j \in I : i <= j
+Strata(D, X, Y, Z) ==
+    LET G == Groups(D, Z) IN
+    Force([g \in {MinOf(I) : I \in G} |-> Tab(D, X, Y, CHOOSE I \in G : MinOf(I) = g)])
+
+TotalDof(S) == ISumSet(DOMAIN S, LAMBDA g : Dof(S[g]))
+ExactlyIndependent(S) == \A g \in DOMAIN S : \A p \in Cells(S[g]) : S[g].O[p] * S[g].n = S[g].r[p[1]] * S[g].c[p[2]]
+HasZeroCell(S) == \E g \in DOMAIN S : \E p \in Cells(S[g]) : Adj(S[g], p) = Zero     \* an empty cell that enters the statistic
+HasYates(S) == \E g \in DOMAIN S : Dof(S[g]) = 1
+AllDegenerate(S) == TotalDof(S) = 0
 
 \* ---- the power-divergence statistic as a symbolic normal form ------------------------
 \* contribution of one cell: [inf, q, k, b, c]  meaning  q + c*f(b)   (k = "none": just q)
@@ -107,11 +114,10 @@ CellTerm(T, p, L) ==
             ELSE LET co == RMul(RDiv(RInt(2), RMul(L, RAdd(L, One))), o)
                  IN [none EXCEPT !.k = "pow", !.b = b, !.c = co, !.q = RNeg(co)]
 
-RawTerms(D, X, Y, Z, L) ==
-    UNION {LET T == Tab(D, X, Y, I) IN {[g |-> I, p |-> p, t |-> CellTerm(T, p, L)] : p \in Cells(T)} : I \in Groups(D, Z)}
+RawTerms(S, L) == UNION {{[g |-> g, p |-> p, t |-> CellTerm(S[g], p, L)] : p \in Cells(S[g])} : g \in DOMAIN S}
 
-Form(D, X, Y, Z, L) ==
-    LET raw == RawTerms(D, X, Y, Z, L)
+Form(S, L) ==
+    LET raw == RawTerms(S, L)
         live == {r \in raw : r.t.k # "none" /\ r.t.b # One}       \* log(1) = 0,  1^L = 1
         unit == {r \in raw : r.t.k = "pow" /\ r.t.b = One}
         bases == {r.t.b : r \in live}
@@ -126,10 +132,9 @@ IsZeroForm(F) == ~F.inf /\ F.q = Zero /\ F.terms = {}
 \* exact value of a "pow" form with integer exponent (used by the lemmas only)
 EvalIntPow(F) == RAdd(F.q, RSumSet(F.terms, LAMBDA t : RMul(t.c, RPowInt(t.b, F.e[1]))))
 \* Pearson's X^2 from its own textbook definition  SUM (O-E)^2/E
-PearsonX2(D, X, Y, Z) ==
-    RSumSet(Groups(D, Z), LAMBDA I :
-        LET T == Tab(D, X, Y, I) IN
-        RSumSet(Cells(T), LAMBDA p : LET d == RSub(Adj(T, p), Exp(T, p)) IN RDiv(RMul(d, d), Exp(T, p))))
+PearsonX2(S) ==
+    RSumSet(DOMAIN S, LAMBDA g :
+        RSumSet(Cells(S[g]), LAMBDA p : LET d == RSub(Adj(S[g], p), Exp(S[g], p)) IN RDiv(RMul(d, d), Exp(S[g], p))))
 
 \* ---- p-value and verdict ------------------------------------------------------------
 \* "one" / "zero" / "sf" (= ChiSquareSF(value of the form, dof), uninterpreted)
@@ -147,54 +152,62 @@ LamName == [pearson |-> "pearson", loglik |-> "log-likelihood", ft |-> "freeman-
             modloglik |-> "mod-log-likelihood", neyman |-> "neyman", cr |-> "cressie-read"]
 ExtraLams == {<<2, 1>>, <<1, 2>>, <<-3, 2>>}
 AllLams == {LamOf[k] : k \in DOMAIN LamOf} \cup ExtraLams
+\* one lambda of every structural kind of the form (integer power, log O/E, fractional power, log E/O, pole at O = 0)
+LemmaLams == {<<1, 1>>, <<0, 1>>, <<-1, 2>>, <<-1, 1>>, <<-2, 1>>}
 \* a call = <<function, lambda_ argument ("" = not passed, "num" = the number L), L>>
 Calls == {<<"chi_square", "", LamOf.pearson>>, <<"g_sq", "", LamOf.loglik>>, <<"log_likelihood", "", LamOf.loglik>>,
           <<"modified_log_likelihood", "", LamOf.modloglik>>, <<"power_divergence", "", LamOf.cr>>}
          \cup {<<"power_divergence", LamName[k], LamOf[k]>> : k \in DOMAIN LamOf}
          \cup {<<"power_divergence", "num", L>> : L \in AllLams}
 
-Result(D, X, Y, Z, L) ==
-    LET F == Form(D, X, Y, Z, L)
-        dof == TotalDof(D, X, Y, Z)
-        pk == PKind(F, dof)
+Result(S, L) ==
+    LET F == Form(S, L)
+        pk == PKind(F, TotalDof(S))
     IN [L |-> L, F |-> F, pk |-> pk, verd |-> [i \in 1..Len(AlphaSeq) |-> Verdict(pk, AlphaSeq[i])]]
 
 \* everything the harness needs for one (data, X, Y, Z)
 Case(D, X, Y, Z) ==
+    LET S == Strata(D, X, Y, Z) IN
     [X |-> X, Y |-> Y, Z |-> Z, n |-> Len(D.rows),
-     dof |-> TotalDof(D, X, Y, Z),
-     indep |-> ExactlyIndependent(D, X, Y, Z),
-     zerocell |-> HasZeroCell(D, X, Y, Z),
-     yates |-> HasYates(D, X, Y, Z),
-     res |-> {Result(D, X, Y, Z, L) : L \in AllLams}]
+     dof |-> TotalDof(S),
+     indep |-> ExactlyIndependent(S),
+     zerocell |-> HasZeroCell(S),
+     yates |-> HasYates(S),
+     res |-> {Result(S, L) : L \in AllLams}]
 \* printed once per TLC run: the calls to make for every case and the significance levels of the verd sequences
 Header == [header |-> TRUE, calls |-> Calls, alphas |-> AlphaSeq]
 
 \* ---- design-level lemmas (checked by TLC on every generated case) --------------------
 Reverse(s) == [i \in 1..Len(s) |-> s[Len(s) + 1 - i]]
-\* F is the same form for the transposed table: symmetric in X and Y
-LemmaSymmetric(D, X, Y, Z) ==
-    /\ TotalDof(D, X, Y, Z) = TotalDof(D, Y, X, Z)
-    /\ \A L \in AllLams : Form(D, X, Y, Z, L) = Form(D, Y, X, Z, L)
-\* invariant under row order and under the order of the conditioning variables
-LemmaOrder(D, X, Y, Z) ==
-    LET D2 == [D EXCEPT !.rows = Reverse(D.rows)] IN
-    /\ TotalDof(D2, X, Y, Reverse(Z)) = TotalDof(D, X, Y, Z)
-    /\ \A L \in AllLams : Form(D2, X, Y, Reverse(Z), L) = Form(D, X, Y, Z, L)
+\* the same form for the transposed tables: symmetric in X and Y
+LemmaSymmetric(S, St) ==
+    /\ TotalDof(S) = TotalDof(St)
+    /\ \A L \in LemmaLams : Form(S, L) = Form(St, L)
+\* invariant under row order and under the order of the conditioning variables (Sr: rows and Z reversed)
+LemmaOrder(S, Sr) ==
+    /\ TotalDof(Sr) = TotalDof(S)
+    /\ \A L \in LemmaLams : Form(Sr, L) = Form(S, L)
 \* exactly independent tables (in particular all-degenerate ones) have statistic 0 and p-value 1
-LemmaIndependent(D, X, Y, Z) ==
-    /\ AllDegenerate(D, X, Y, Z) => ExactlyIndependent(D, X, Y, Z)
-    /\ ExactlyIndependent(D, X, Y, Z) =>
-          \A L \in AllLams : LET F == Form(D, X, Y, Z, L) IN IsZeroForm(F) /\ PKind(F, TotalDof(D, X, Y, Z)) = "one"
-\* the lambda = 1 member of the family is Pearson's X^2; integer-lambda members are >= 0, and (without Yates) 0 only at independence
-LemmaPearson(D, X, Y, Z) ==
-    LET F1 == Form(D, X, Y, Z, <<1, 1>>)
-        F2 == Form(D, X, Y, Z, <<2, 1>>)
-        FN == Form(D, X, Y, Z, <<-2, 1>>)
-    IN /\ EvalIntPow(F1) = PearsonX2(D, X, Y, Z)
+LemmaIndependent(S) ==
+    /\ AllDegenerate(S) => ExactlyIndependent(S)
+    /\ ExactlyIndependent(S) =>
+          \A L \in AllLams : LET F == Form(S, L) IN IsZeroForm(F) /\ PKind(F, TotalDof(S)) = "one"
+\* the lambda = 1 member of the family is Pearson's X^2; integer-lambda members are >= 0, and (without Yates) 0 only at
+\* independence; the lambda <= -1 members are infinite exactly when an empty cell is tested
+LemmaPearson(S) ==
+    LET F1 == Form(S, <<1, 1>>)
+        F2 == Form(S, <<2, 1>>)
+        FN == Form(S, <<-2, 1>>)
+    IN /\ EvalIntPow(F1) = PearsonX2(S)
        /\ RLe(Zero, EvalIntPow(F1)) /\ RLe(Zero, EvalIntPow(F2))
        /\ (~FN.inf => RLe(Zero, EvalIntPow(FN)))
-       /\ (~HasYates(D, X, Y, Z) /\ EvalIntPow(F1) = Zero => ExactlyIndependent(D, X, Y, Z))
-       /\ (FN.inf <=> HasZeroCell(D, X, Y, Z))
-Lemmas(D, X, Y, Z) == LemmaSymmetric(D, X, Y, Z) /\ LemmaOrder(D, X, Y, Z) /\ LemmaIndependent(D, X, Y, Z) /\ LemmaPearson(D, X, Y, Z)
+       /\ (~HasYates(S) /\ EvalIntPow(F1) = Zero => ExactlyIndependent(S))
+       /\ (FN.inf <=> HasZeroCell(S))
+       /\ (Form(S, <<-1, 1>>).inf <=> HasZeroCell(S))
+       /\ ~Form(S, <<-1, 2>>).inf /\ ~Form(S, <<0, 1>>).inf
+Lemmas(D, X, Y, Z) ==
+    LET S == Strata(D, X, Y, Z)
+        St == Strata(D, Y, X, Z)
+        Sr == Strata([D EXCEPT !.rows = Reverse(D.rows)], X, Y, Reverse(Z))
+    IN LemmaSymmetric(S, St) /\ LemmaOrder(S, Sr) /\ LemmaIndependent(S) /\ LemmaPearson(S)
 =============================================================================
